@@ -134,6 +134,14 @@ func refOf(text string) fileRef {
 			id = c.Identifier()
 		case *parser.StatementContext:
 			id = c.GetIdentifierLabel()
+		case *parser.AnnotationContext:
+			// `@ b.NbAlpha(0)`: the head of a qualified annotation name is a package (or an enclosing type named in
+			// full), no simple name an import brings in
+			if qn, ok := c.QualifiedName().(*parser.QualifiedNameContext); ok && len(qn.AllIdentifier()) > 1 {
+				for _, x := range qn.AllIdentifier() {
+					declared[x.GetStart().GetTokenIndex()] = true
+				}
+			}
 		}
 		if id != nil {
 			declared[id.GetStart().GetTokenIndex()] = true
@@ -379,5 +387,5 @@ func checkAny(c jany.Case) pbt.Verdict {
 
 func init() {
 	pbt.DescribeMore("sub-check anyjava: directories of repository .java fixtures rewritten token by token and jgen projects with every body shape on (internal/jany), cleaned by RemoveUnusedImportApp and judged by a token-level reference: the result is the original minus whole lines that each hold exactly one import declaration; no wildcard import is deleted; the simple name of a deleted import is no identifier token outside the import and package declarations; a single-type non-static import whose simple name occurs nowhere else in the file's text is deleted; a second run changes nothing. Left open and counted: static imports that stay, names that occur only in comments or literals, files whose imports do not stand one per line.")
-	pbt.Register("anyjava", 600, 2500, jany.Gen, checkAny)
+	pbt.Register("anyjava", 600, 1500, jany.Gen, checkAny)
 }
